@@ -46,6 +46,10 @@ var transSpecs = []transSpec{
 	{"txcache/config.go", "ConfigDestinationMe", "verify", "crossConfigAccepted", "verify"},
 	{"immunitycache/config.go", "CacheConfig", "Verify", "immunityConfigAccepted", "verify"},
 	{"factory/storageUnit.go", "", "NewStorageUnitFromConf", "unitConfRejected", "rejectif"},
+	{"txcache/txListForSender.go", "txListForSender", "findInsertionPlace", "insertionStep", "loopstep"},
+	{"txcache/txListForSender.go", "txListForSender", "removeTransactionsWithLowerOrEqualNonceReturnHashes", "removeLowerStops", "breaks"},
+	{"txcache/txListForSender.go", "txListForSender", "removeTransactionsWithHigherOrEqualNonce", "removeHigherStops", "breaks"},
+	{"timecache/timeCacheCore.go", "timeCacheCore", "upsert", "upsertExtendsSpan", "ifcond:existing.span = duration"},
 	{"txcache/transactionsHeapItem.go", "transactionsHeapItem", "detectInitialGap", "initialGap", "func"},
 	{"txcache/transactionsHeapItem.go", "transactionsHeapItem", "detectMiddleGap", "middleGap", "func"},
 	{"txcache/transactionsHeapItem.go", "transactionsHeapItem", "detectLowerNonce", "lowerNonce", "func"},
@@ -79,6 +83,20 @@ type translator struct {
 	alias  map[string]*leaf  // local that is a bare alias of a leaf (type flows back)
 	bumped map[string]int    // leaf text → +n from x++ statements
 	nlocal int
+	// mode loopstep: the distinct ways one iteration of the loop ends other than going on with the next element
+	// (`return …` / `break` statements by source text, in order of first occurrence); outcome code = index + 1, 0 = next element
+	outcomes []string
+}
+
+func (t *translator) outcome(text string) string {
+	text = strings.Join(strings.Fields(text), " ")
+	for i, o := range t.outcomes {
+		if o == text {
+			return fmt.Sprintf("(%d : Int)", i+1)
+		}
+	}
+	t.outcomes = append(t.outcomes, text)
+	return fmt.Sprintf("(%d : Int)", len(t.outcomes))
 }
 
 func (t *translator) fail(format string, a ...interface{}) {
@@ -308,7 +326,20 @@ func (t *translator) stmts(l []ast.Stmt, k string, ret string) string {
 	}
 	s, rest := l[0], l[1:]
 	switch x := s.(type) {
+	case *ast.BranchStmt:
+		if ret == "Outcome" && x.Label == nil {
+			if x.Tok == token.CONTINUE {
+				return "(0 : Int)"
+			}
+			if x.Tok == token.BREAK {
+				return t.outcome("break")
+			}
+		}
+		t.fail("statement %s", t.src(x))
 	case *ast.ReturnStmt:
+		if ret == "Outcome" {
+			return t.outcome(t.src(x))
+		}
 		if len(x.Results) != 1 {
 			t.fail("return with %d results", len(x.Results))
 		}
@@ -333,6 +364,10 @@ func (t *translator) stmts(l []ast.Stmt, k string, ret string) string {
 		id, ok := x.Lhs[0].(*ast.Ident)
 		if !ok {
 			t.fail("assignment %s", t.src(x))
+		}
+		if _, isAssert := x.Rhs[0].(*ast.TypeAssertExpr); isAssert && ret == "Outcome" {
+			// `cur := element.Value.(*T)`: data flow, not logic — the local stays a name inside the selector chains that read it
+			return t.stmts(rest, k, ret)
 		}
 		before := len(t.leaves)
 		e, ty := t.expr(x.Rhs[0], "")
@@ -522,6 +557,27 @@ func translateOne(repo string, sp transSpec) (def string, err string) {
 		}
 		body = "[" + strings.Join(cs, ",\n   ") + "]"
 		ret = "List Bool"
+	case sp.mode == "loopstep":
+		// one iteration of the function's (last top-level) for-loop as a decision: 0 = go on with the next element, i > 0 = the
+		// i-th distinct `return …`/`break` of the body; statements before the loop that define locals are translated as lets
+		var loop *ast.ForStmt
+		var pre []ast.Stmt
+		for _, s := range fd.Body.List {
+			if fs, ok := s.(*ast.ForStmt); ok {
+				loop = fs
+				continue
+			}
+			if loop == nil {
+				if as, ok := s.(*ast.AssignStmt); ok && as.Tok == token.DEFINE && len(as.Lhs) == 1 && len(as.Rhs) == 1 {
+					pre = append(pre, s)
+				}
+			}
+		}
+		if loop == nil {
+			return "", "no for-loop"
+		}
+		ret = "Int"
+		body = t.stmts(append(append([]ast.Stmt{}, pre...), loop.Body.List...), "(0 : Int)", "Outcome")
 	case strings.HasPrefix(sp.mode, "ifcond:"):
 		needle := strings.TrimPrefix(sp.mode, "ifcond:")
 		var found *ast.IfStmt
@@ -623,6 +679,9 @@ func translateOne(repo string, sp transSpec) (def string, err string) {
 	fmt.Fprintf(&sb, "/-- `%s%s` in %s (mode %s); leaves in order of first occurrence -/\n", recv, sp.name, sp.file, sp.mode)
 	fmt.Fprintf(&sb, "def %s %s : %s :=\n  %s\n", sp.lean, strings.Join(params, " "), ret, body)
 	fmt.Fprintf(&sb, "def %s_leaves : List String := [%s]\n", sp.lean, strings.Join(srcs, ", "))
+	if sp.mode == "loopstep" {
+		fmt.Fprintf(&sb, "def %s_outcomes : List String := [%s]\n", sp.lean, quoteAll(t.outcomes))
+	}
 	return sb.String(), ""
 }
 
